@@ -100,3 +100,23 @@ package hcl
 // verif:func GetAttr
 //@ nosafety
 //@ requires cleanName: clean(attrName)
+
+// ---- diagnostics ----
+// verif:pred hasErr(d Diagnostics) = exists j int :: 0 <= j && j < len(d) && d[j].Severity == DiagError
+// (a nil element would panic: not a precondition here, callers are not asked to prove it)
+// verif:func (Diagnostics).HasErrors
+//@ nosafety
+//@ pure
+//@ ensures ret == hasErr(d)
+//@ loop 1 invariant forall j int :: { d[j] } 0 <= j && j <= rangeindex ==> d[j].Severity != DiagError
+
+// ---- expression evaluation, interface level (used by unit U15, C06) ----
+// exprVal(e, ctx): the value e evaluates to in ctx (evaluation is a function of the expression and
+// the context). Assumed for every implementation: evaluating an expression does not write the
+// expression tree, the evaluation context or any mark set (it may write splat iteration state and
+// allocate).
+// verif:specfunc exprVal(e Expression, ctx *EvalContext) cty.Value
+// verif:func (Expression).Value
+//@ trusted
+//@ assigns allof(hclsyntax.AnonSymbolExpr.values), allmaps(hclsyntax.AnonSymbolExpr.values)
+//@ ensures ret0 == exprVal(self, ctx)
